@@ -64,6 +64,7 @@ var specialNames = []string{
 	"Twice_K0", "Twice_S4", "TwiceIn_K2", "InIgn_K0", "InIgn_S4", "RetI_K0", "RetI_K1", "NewDec0", "NewDec1", "NewDec2",
 	"InEmb_K0", "InEmb_S4", "InEmb_K2", "InEmb_S5",
 	"InSp_K0", "InGG_K0", "InSG_K0", "InNG_K0", "InNG_S4", "InKK_K0", "InKU_K0", "InUK_K2", "InAnon_K0", "InAnon_S4", "InAnon_K2",
+	"BIopt_S6", "BIopt_K3",
 }
 
 var outGroupNames = []string{"OutG_K0K1", "OutGG_K0"}
